@@ -3,8 +3,8 @@
     Proofs/Refresh.v and Proofs/RefreshEngine.v.  The parser theorems hold for every checksum
     function [crc] (hash/crc32 in the code). *)
 From Coq Require Import NArith List.
-From AGH Require Import Base.Run Model.RuleListParser Model.Refresh Proofs.RuleListParser Proofs.Refresh
-  Proofs.RefreshEngine.
+From AGH Require Import Base.Run Model.RuleListParser Model.Refresh Proofs.RuleListParser Proofs.RuleListWrite
+  Proofs.Refresh Proofs.RefreshEngine Proofs.RefreshWrite.
 Import ListNotations.
 Local Open Scope N_scope.
 
@@ -127,12 +127,14 @@ Print Assumptions C15_same_checksum_not_written.
 (** The file changes only on success with a new checksum, and then it holds a
     normal form whose re-parse reproduces it with the recorded count and
     checksum; in every other case (also when the pending file cannot replace
-    the list's file) neither the files nor the structure worked on change and
-    no update is reported. *)
+    the list's file, or does not take what the parser writes) neither the
+    files nor the structure worked on change and no update is reported.
+    [delivers o d re]: the reader hands body [d] to the parser and every write
+    to the pending file succeeds. *)
 Theorem C15_written_is_normal_form : forall crc l o fs,
   let '(u, fs') := update_one crc l o fs in
   (u_updated u = false /\ fs' = fs /\ u_list u = l) \/
-  (exists d re st, o = OBody d re /\ parse crc d re = (st, None) /\ p_sum st <> f_sum l /\
+  (exists d re st, delivers crc o d re /\ parse crc d re = (st, None) /\ p_sum st <> f_sum l /\
      u_updated u = true /\ u_err u = false /\ u_list u = filled l st /\
      fs' = fset (f_id l) (output st) fs /\
      exists st', parse crc (output st) false = (st', None) /\ output st' = output st /\
@@ -188,7 +190,7 @@ Print Assumptions C15_metadata_describe_file.
 Theorem C15_stored_content_not_rewritten : forall crc b a force due oc st l c d re pst,
   wf crc st -> In l (r_block st ++ r_allow st) -> f_enabled l = true ->
   fget (f_id l) (r_files st) = Some c ->
-  oc (f_id l) = OBody d re -> parse crc d re = (pst, None) -> output pst = c ->
+  delivers crc (oc (f_id l)) d re -> parse crc d re = (pst, None) -> output pst = c ->
   let st' := refresh crc b a force due oc st in
   fentry (f_id l) (r_files st') = fentry (f_id l) (r_files st) /\
   In l (r_block st' ++ r_allow st').
@@ -329,6 +331,90 @@ Example C15_refresh_premises_satisfiable :
   refresh crc32_update true true true RExamples.all
     (fun i => if i =? 1 then OBody RExamples.html false else OOpenErr) RExamples.st1 = RExamples.st1.
 Proof. exact refresh_example. Qed.
+
+(** ** Failing writes to the pending file (round 4)
+
+    The pending file is the parser's destination.  [parse_w crc cap] is the
+    parser against a destination that takes [cap] bytes in all and then fails
+    (the write crossing the limit is short): it is [parse] when everything
+    written fits, and ends in the write error, the destination filled to the
+    last byte, when it does not. *)
+Theorem C15_write_limit_refines_parse : forall crc cap x read_err,
+  (cap < p_written (fst (parse crc x read_err)) /\
+   exists st part, parse_w crc cap x read_err = (st, Some EWrite, part) /\ p_written st = cap) \/
+  (p_written (fst (parse crc x read_err)) <= cap /\ parse_w crc cap x read_err = (parse crc x read_err, [])).
+Proof. exact parse_w_cases. Qed.
+Print Assumptions C15_write_limit_refines_parse.
+
+(** For a text that parses, the failure is there at EVERY position of the
+    limit before the end of its normal form: zero, inside a line, at a line
+    boundary, one byte short. *)
+Theorem C15_write_failure_fails : forall crc d read_err cap st,
+  parse crc d read_err = (st, None) -> cap < lenN (output st) -> fails crc (OWriteFail d read_err cap).
+Proof. exact write_failure_any_position. Qed.
+Print Assumptions C15_write_failure_fails.
+
+(** A refresh whose pending-file write fails is a no-op, after every history
+    of refreshes (write failures among them), set_url calls and rebuilds: in a
+    pass where other lists may be updated, the list keeps its file (bytes and
+    generation), its entry (URL, name, enabled flag, rule count, checksum) and,
+    the engine having been in step with the files, the text in force for it. *)
+Theorem C15_failed_write_is_noop : forall crc hs st0 i b a force due oc,
+  let st := run_hist crc hs st0 in
+  write_fails_in crc oc i ->
+  let st' := refresh crc b a force due oc st in
+  fentry i (r_files st') = fentry i (r_files st) /\
+  (forall k l, nth_error (r_block st) k = Some l -> f_id l = i -> nth_error (r_block st') k = Some l) /\
+  (forall k l, nth_error (r_allow st) k = Some l -> f_id l = i -> nth_error (r_allow st') k = Some l) /\
+  (engine_consistent st -> in_force (r_engine st') i = in_force (r_engine st) i).
+Proof. exact failed_write_is_noop. Qed.
+Print Assumptions C15_failed_write_is_noop.
+
+(** A pass in which every list's pending file fails changes nothing at all. *)
+Theorem C15_failed_write_pass_is_noop : forall crc hs st0 b a force due oc,
+  let st := run_hist crc hs st0 in
+  (forall l, In l (r_block st ++ r_allow st) -> write_fails_in crc oc (f_id l)) ->
+  refresh crc b a force due oc st = st.
+Proof. exact failed_write_pass_is_noop. Qed.
+Print Assumptions C15_failed_write_pass_is_noop.
+
+(** The download a set_url call starts (re-enabling, or a new free URL): an
+    error is reported and the whole state is as it was. *)
+Theorem C15_failed_write_set_is_noop : forall crc hs st0 allow u name nurl pre f post d re cap,
+  let st := run_hist crc hs st0 in
+  arr allow st = pre ++ f :: post -> Forall (other_url u) pre -> f_url f = u ->
+  (nurl = u /\ f_enabled f = false) \/ (nurl <> u /\ url_used nurl st = false) ->
+  cap < p_written (fst (parse crc d re)) ->
+  set_props crc allow u name nurl true (OWriteFail d re cap) st = (false, true, st).
+Proof. exact failed_write_set_is_noop. Qed.
+Print Assumptions C15_failed_write_set_is_noop.
+
+(** Non-vacuity: limits 0, 3, 5 under a normal form of 6 bytes fail and leave
+    [st1] as it is; limit 6 is the pass without a limit (file replaced).  The
+    parser example against every limit below its 14 bytes. *)
+Example C15_failed_write_satisfiable :
+  forallb (fun cap =>
+    match parse_w crc32_update cap RExamples.good2 false with (_, Some EWrite, _) => true | _ => false end)
+    [0; 3; 5] = true /\
+  (forall cap, In cap [0; 3; 5] ->
+     refresh crc32_update true true true RExamples.all (fun _ => OWriteFail RExamples.good2 false cap) RExamples.st1
+     = RExamples.st1) /\
+  refresh crc32_update true true true RExamples.all (fun _ => OWriteFail RExamples.good2 false 6) RExamples.st1
+  = refresh crc32_update true true true RExamples.all (fun _ => OBody RExamples.good2 false) RExamples.st1 /\
+  fget 1 (r_files (refresh crc32_update true true true RExamples.all (fun _ => OWriteFail RExamples.good2 false 6) RExamples.st1))
+  = Some RExamples.good2.
+Proof. exact failed_write_example. Qed.
+
+Example C15_write_limit_satisfiable :
+  forallb (fun cap => match parse_w crc32_update cap Examples.text false with
+                      | (st, Some EWrite, part) => (p_written st =? cap) &&
+                          eqb_bytes (take cap Examples.stored)
+                                    (flat_map (fun t => t ++ [10]) (rv (p_lines st)) ++ part)
+                      | _ => false
+                      end) [0; 1; 4; 5; 6; 9; 10; 13] = true /\
+  parse_w crc32_update 14 Examples.text false = (parse crc32_update Examples.text false, []) /\
+  parse_w crc32_update 4096 Examples.text false = (parse crc32_update Examples.text false, []).
+Proof. exact parse_w_example. Qed.
 
 (** ** The engine over histories *)
 
